@@ -79,7 +79,12 @@ func (s *streamWriter) Invoke(msgs []actor.Envelope) {
 			continue
 		}
 		typeID, typeNames = lookupTypeName(typeLookup, s.serializer.TypeName(stream.msg), typeNames)
-		senderID, senders = lookupPIDs(senderLookup, stream.sender, senders)
+		// A message without a sender carries index -1: index 0 would name the
+		// first sender of a batch that mixes messages with and without senders.
+		senderID = -1
+		if stream.sender != nil {
+			senderID, senders = lookupPIDs(senderLookup, stream.sender, senders)
+		}
 		targetID, targets = lookupPIDs(targetLookup, stream.target, targets)
 
 		b, err := s.serializer.Serialize(stream.msg)
